@@ -104,7 +104,7 @@ impl MmapOptions {
 // ------------------------------------------------------------------------------------------
 
 /// Largest write that is really copied in contract mode (bytes).
-pub const COPY_BOUND: usize = 16;
+pub const COPY_BOUND: usize = 48;
 
 /// `write_to_mmap` hook. Ghost mode (no backing bytes): the write becomes a ghost `Write` event
 /// (for the regions file the decoded slot fields are attached).  Contract mode: bounded
@@ -123,13 +123,11 @@ pub fn ghost_write(mmap: &MmapMut, offset: usize, data: &[u8]) -> bool {
     }
     if !mmap.ptr.is_null() {
         assert!(n <= COPY_BOUND, "VERIF: bound exceeded: contract-mode write size");
-        let mut i = 0;
-        while i < COPY_BOUND {
+        crate::unroll48!(i, {
             if i < n {
                 unsafe { *mmap.ptr.add(offset + i) = data[i] };
             }
-            i += 1;
-        }
+        });
     }
     true
 }
@@ -140,13 +138,11 @@ pub fn ghost_copy(mmap: &MmapMut, src: usize, dst: usize, len: usize) -> bool {
     ghost::log(K::Copy, src, dst, len);
     if !mmap.ptr.is_null() {
         assert!(len <= COPY_BOUND, "VERIF: bound exceeded: contract-mode copy size");
-        let mut i = 0;
-        while i < COPY_BOUND {
+        crate::unroll48!(i, {
             if i < len {
                 unsafe { *mmap.ptr.add(dst + i) = *mmap.ptr.add(src + i) };
             }
-            i += 1;
-        }
+        });
     }
     true
 }
